@@ -503,7 +503,8 @@ func (g *pgen) stmt(acc string) []GStmt {
 		n := g.fresh("v")
 		s := SDecl{n, TInt, g.intExpr(2)}
 		g.ints = append(g.ints, n)
-		return []GStmt{s}
+		// fold it into the accumulator so that the value is observable in the result
+		return []GStmt{s, SOpAsg{acc, pick(g.r, []string{"+", "^", "+"}), EBin{"*", EVar{n}, EInt{1 + g.r.Intn(3)}, TInt}}}
 	case c < 5:
 		return []GStmt{SOpAsg{acc, pick(g.r, []string{"+", "+", "*", "-", "^"}), g.intExpr(2)}}
 	case c < 8:
